@@ -76,6 +76,7 @@ type treeOpts struct {
 	keyNames         bool // entries named like the JSON keys of the manifest schemas
 	siblings         bool // tracked files named like another entry plus a temp-file suffix
 	dupPair          bool // two top-level files with identical contents (one cache object for both)
+	cacheNames       bool // sub-directories named like the cache directories the harness configures
 }
 
 func genTree(r *rng, depth int, to treeOpts, pool *[][]byte, s *summary) *Node {
@@ -117,6 +118,18 @@ func genTree(r *rng, depth int, to treeOpts, pool *[][]byte, s *summary) *Node {
 					}
 				}
 			}
+		}
+	}
+	if to.cacheNames && depth <= 1 && r.chance(1, 4) {
+		// tracked sub-directories that merely have the NAME of a cache directory (.dud/cache, mycache,
+		// cache:abs, cache_x): data like any other
+		for _, cn := range []string{"cache", "mycache", "cache:abs", "cache_x"} {
+			if n.get(cn) == nil {
+				n.set(cn, nDir(Ent{"kept.txt", nFile(genContent(r, pool))}))
+			}
+		}
+		if s != nil {
+			s.count("name:like-a-cache-directory")
 		}
 	}
 	if to.keyNames && depth <= 1 && r.chance(1, 2) {
